@@ -630,7 +630,7 @@ class Executor:
             if isinstance(a, SStr) and isinstance(b, SStr):
                 if a.is_str != b.is_str:
                     return [self.res_exc(st, SExc(TypeError))]
-                return [self.res(st, concat(a, b))]
+                return [self.res(st, self.merge_adjacent(st, concat(a, b)))]
             la, lb = self.concrete_items(st, a), self.concrete_items(st, b)
             if la is not None and lb is not None:
                 if isinstance(a, STuple):
@@ -646,6 +646,20 @@ class Executor:
             if ca is not None and cb is not None:
                 return [self.res(st, SStr([Lit(ca * cb)], a.is_str))]
         raise Unsupported("binop %s on %r, %r" % (type(op).__name__, a, b))
+
+    def merge_adjacent(self, st, s):
+        """a rope of two windows of the same stream that are provably adjacent is one window"""
+        if len(s.atoms) != 2 or not all(isinstance(a, Win) for a in s.atoms):
+            return s
+        x, y = s.atoms
+        if not (x.base.eq(y.base) and x.xf == y.xf):
+            return s
+        adj = Or(x.length() == 0, y.length() == 0, x.hi == y.lo)
+        if not entails(st.pc, adj, 2000):
+            return s
+        lo = If(x.length() == 0, y.lo, x.lo)
+        hi = If(y.length() == 0, If(x.length() == 0, y.lo, x.hi), y.hi)
+        return mk_win(x.base, z3.simplify(lo), z3.simplify(hi), s.is_str, x.xf)
 
     def ev_Compare(self, e, st):
         operands = [e.left] + list(e.comparators)
